@@ -74,6 +74,57 @@ def _from_pattern(pat, names):
             break
 
 
+def handler_names():
+    """method names that meet the generator's own item names: functions the templates define (`fn dispatch`, `fn new`, ..), public
+    functions of the runtime crate that generated impls call on `self` (`contract`, `funds`, `querier`, ..), and the snake_case
+    of every UpperCamel identifier a template uses in value / pattern position (`Into::into`, `Ok(..)`, `Err(..)`: a handler
+    `into` becomes the variant `Into`)."""
+    import glob
+    names = set()
+    for rel, qn, mac, tt, ln in grules.templates():
+        toks = grules.flat_tokens(tt)
+        for i, t in enumerate(toks):
+            if t["t"] != "ident":
+                continue
+            s = t["s"]
+            prev = toks[i - 1] if i > 0 else None
+            if prev is not None and prev["t"] == "ident" and prev["s"] == "fn" and re.match(r"^[a-z_][a-z0-9_]*$", s):
+                names.add(s)
+            if re.match(r"^[A-Z][A-Za-z0-9]*$", s) and not (prev is not None and prev["t"] == "punct" and prev["s"] in ("#", "'")):
+                snake = re.sub(r"(?<!^)([A-Z])", r"_\1", s).lower()
+                if re.match(r"^[a-z][a-z0-9_]*$", snake):
+                    names.add(snake)
+    from . import util
+    for f in sorted(glob.glob(os.path.join(util.REPO, "sylvia", "src", "**", "*.rs"), recursive=True)):
+        with open(f) as fh:
+            for m in re.finditer(r"\bpub\s+(?:const\s+)?fn\s+([a-z_][a-z0-9_]*)", fh.read()):
+                names.add(m.group(1))
+    # `new` is the constructor every contract must have; `dispatch` is the known finding D18 (witness corpus/w-handler-dispatch)
+    return sorted(n for n in names if n not in KW and n != "_" and not n.startswith("sv_") and n not in ("new", "dispatch"))
+
+
+def handler_program(names):
+    kinds = (("exec", "ExecCtx", "Response", "Ok(Response::new())"), ("query", "QueryCtx", "Resp", "Ok(Resp {})"), ("sudo", "SudoCtx", "Response", "Ok(Response::new())"))
+    out = ["//@ props: C01 C02 C10 C12\n//@ expect: pass\n"
+           f"//@ what: handlers (contract and interface, every enum kind) named like the generator's own functions, the runtime's public functions and the snake_case of every UpperCamel identifier used in templates ({len(names)} names computed on this run): generated items must not collide with, or be captured by, a handler's name\n"
+           "#![allow(dead_code, unused_variables, unused_imports, deprecated, clippy::new_without_default, clippy::should_implement_trait, clippy::wrong_self_convention)]\n"
+           "use sylvia::ctx::{ExecCtx, InstantiateCtx, QueryCtx, SudoCtx};\n"
+           "use sylvia::cw_std::{Response, StdError, StdResult};\n"
+           "use sylvia::{contract, entry_points, interface};\n\n"
+           "#[sylvia::cw_schema::cw_serde]\npub struct Resp {}\n\n"]
+    for kind, ctx, ret, body in kinds:
+        out.append(f"pub mod c_{kind} {{\n    use super::*;\n    pub struct Contract;\n\n    #[entry_points]\n    #[contract]\n    impl Contract {{\n        pub fn new() -> Self {{\n            Self\n        }}\n"
+                   "        #[sv::msg(instantiate)]\n        fn witness_instantiate(&self, _ctx: InstantiateCtx) -> StdResult<Response> { Ok(Response::new()) }\n")
+        for n in names:
+            out.append(f"        #[sv::msg({kind})]\n        fn {n}(&self, _ctx: {ctx}, a: u32) -> StdResult<{ret}> {{ {body} }}\n")
+        out.append("    }\n}\n\n")
+        out.append(f"pub mod i_{kind} {{\n    use super::*;\n\n    #[interface]\n    #[sv::custom(msg = sylvia::cw_std::Empty, query = sylvia::cw_std::Empty)]\n    pub trait Named {{\n        type Error: From<StdError>;\n")
+        for n in names + ["new"]:
+            out.append(f"        #[sv::msg({kind})]\n        fn {n}(&self, ctx: {ctx}, a: u32) -> Result<{ret}, Self::Error>;\n")
+        out.append("    }\n}\n\n")
+    return "".join(out)
+
+
 def _args(names, ty="String"):
     return "".join(f", {n}: {ty}" for n in names)
 
@@ -158,4 +209,14 @@ def generate(dest_root):
         f.write(MANIFEST)
     with open(os.path.join(d, "src", "lib.rs"), "w") as f:
         f.write(program(names))
-    return [d], {"w-argnames": {"names": names}}
+    hn = handler_names()
+    if len(hn) < 40:
+        from .util import CheckError
+        raise CheckError(f"dynamic witness: only {len(hn)} handler-name candidates (expected >= 40): extraction broke")
+    d2 = os.path.join(dest_root, "w-handlernames")
+    os.makedirs(os.path.join(d2, "src"), exist_ok=True)
+    with open(os.path.join(d2, "Cargo.toml.in"), "w") as f:
+        f.write(MANIFEST.replace("w-argnames", "w-handlernames"))
+    with open(os.path.join(d2, "src", "lib.rs"), "w") as f:
+        f.write(handler_program(hn))
+    return [d, d2], {"w-argnames": {"names": names}, "w-handlernames": {"names": hn}}
